@@ -9,4 +9,16 @@ PROPS = {
         "text": "Bounded model checking of every public flat Decoder entry point and of flat::decode::<T> on an arbitrary buffer of symbolic length (0..=12 bytes for the fixed-size primitives, 0..=3 quick / 0..=5 thorough where the filler/block loops dominate), entered after 0..=7 skipped bits: Kani's built-in panic, bounds and arithmetic-overflow checks must all hold, i.e. the result is Ok or Err.",
         "note": "Buffers above the stated sizes are outside (the property says 64 bytes). Decoder::utf8/String: std's UTF-8 validator is trusted total (no verdict within 15 min on symbolic bytes); its Vec<u8> leg is covered. Three genuine panics found here were repaired by fix: commits (see known_findings.json).",
     },
+    "C03": {
+        "k": [("k_codec", ["c03_"])],
+        "text": "placeholder",
+        "note": "placeholder",
+        "timeout": {"quick": 420, "thorough": 2400},
+    },
+    "C04": {
+        "k": [("k_codec", ["c04_"])],
+        "text": "placeholder",
+        "note": "placeholder",
+        "timeout": {"quick": 420, "thorough": 2400},
+    },
 }
